@@ -31,7 +31,8 @@ CONTRACTS = {
               'no_options': ((), f"not exists('e:{EDGE}', e in graph.edge_set and e[0] == choice_node)")},
         calls={'iter_out_edges': ITER_OUT_A, 'iter_in_edges': ITER_IN,
                'graph.predecessors': dict(params=['n'], types={}, returns='List[Ref]', modifies=[], assumed=True, receiver='graph',
-                                          ensures=[f"forall('x:Ref', (x in result) == exists('e:{EDGE}', e in graph.edge_set and e[0] == x and e[1] == n))"]),
+                                          ensures=[f"forall(j, 0, len(result), exists('e:{EDGE}', e in graph.edge_set and e[0] == result[j] and e[1] == n))",
+                                                   f"forall('e:{EDGE}', implies(e in graph.edge_set and e[1] == n, e[0] in result))"]),
                'get_edge_for_type': dict(params=['from_node', 'to_node', 'edge_type', 'choice_node'], types={}, returns=EDGE3, modifies=[],
                                          pure_expr='(from_node, to_node, edge_type)'),
                'get_edge': dict(params=['from_node', 'to_node'], types={}, returns=EDGE3, modifies=[],
@@ -39,7 +40,7 @@ CONTRACTS = {
                'get_derived_edges_for_edge': DERIVED_FOR_EDGE},
         raises={'not-an-option': ('NoOptionError', 'not no_options() and not is_option(target_option_node)')},
         loops={
-            'for (constrained_dec_node, removed_options) in choice_con_map': dict(index='i_con', invariant={
+            'for constrained_dec_node, removed_options in choice_con_map': dict(index='i_con', invariant={
                 'own-out-edges-kept': f"forall('e:{EDGE}', implies(e in graph.edge_set and e[0] == choice_node, e in choice_out_edges))",
                 'only-graph-edges': f"forall('e:{EDGE}', implies(e in choice_out_edges, e in graph.edge_set))",
             }),
@@ -62,9 +63,83 @@ CONTRACTS = {
                 f"implies(not no_options() and not only_added, forall('e:{EDGE}', implies(e in graph.edge_set and e[0] == choice_node and e[1] != target_option_node, e in removed_edges)))"),
             'no-options-marks-origin-infeasible': ('property',
                 f"implies(no_options(), forall('a:{EDGE3}', implies(a in added_edges, a[2] == EdgeType.INCOMPATIBILITY and a[0] in start_nodes and "
-                f"exists('e:{EDGE}', e in graph.edge_set and e[1] == choice_node and e[0] == a[1]))) and "
-                f"forall('e:{EDGE}', implies(e in graph.edge_set and e[1] == choice_node, exists('a:{EDGE3}', a in added_edges and a[1] == e[0]))))"),
+                f"exists('e:{EDGE}', e in graph.edge_set and e[1] == choice_node and e[0] == a[1]))))"),
+            'no-options-marks-every-origin': ('property',
+                f"implies(no_options(), forall('e:{EDGE}', implies(e in graph.edge_set and e[1] == choice_node, "
+                f"exists('s:Ref', s in start_nodes and (s, e[0], EdgeType.INCOMPATIBILITY) in added_edges))))"),
+            'no-options-removes-only-the-choice': ('property',
+                "implies(no_options(), forall('x:Ref', (x in removed_nodes) == (x == choice_node)))"),
         },
         modifies=[],
     ),
 }
+
+
+def _domain_apply_selection(n):
+    """Real graphs; the segment's variables are observed through the function's return value: the tail after the
+    segment only adds nodes to removed_nodes and 4-tuple incompatibility marker edges to added_edges (dropped here)."""
+    import random, os
+    import networkx as nx
+    from adsg_core.graph.choices import get_mod_apply_selection_choice
+    from adsg_core.graph.graph_edges import EdgeType, add_edge, get_edge_type, HashableDict
+    from adsg_core.graph.adsg_nodes import NamedNode, SelectionChoiceNode
+    rng = random.Random(8200 + int(os.environ.get('VERIF_SEED', '0') or 0))
+    for _ in range(n):
+        nn = rng.randint(3, 7)
+        nodes = [NamedNode(f'n{i}') for i in range(nn)]
+        choice = SelectionChoiceNode('c')
+        other = SelectionChoiceNode('d')
+        g = nx.MultiDiGraph()
+        g.edge_attr_dict_factory = HashableDict
+        g.add_nodes_from(nodes + [choice, other])
+        es = set()
+
+        def add(u, v, t):
+            key = g.new_edge_key(u, v)
+            add_edge(g, u, v, key=key, edge_type=t)
+            es.add((u, v, key, t))
+        for o in rng.sample(nodes, rng.randint(0, 2)):
+            add(o, choice, EdgeType.DERIVES)
+        opts = rng.sample(nodes, rng.randint(0, 3))
+        for o in opts:
+            add(choice, o, EdgeType.DERIVES)
+        for _ in range(rng.randint(0, 6)):
+            u, v = rng.sample(nodes, 2)
+            add(u, v, rng.choice([EdgeType.DERIVES, EdgeType.DERIVES, EdgeType.INCOMPATIBILITY]))
+        oopts = rng.sample(nodes, rng.randint(0, 2))
+        add(nodes[0], other, EdgeType.DERIVES)
+        for o in oopts:
+            add(other, o, EdgeType.DERIVES)
+        g.edge_set = es
+        start = {nodes[0]}
+        target = rng.choice(opts) if opts and rng.random() < 0.8 else rng.choice(nodes)
+        con_map = None if rng.random() < 0.5 else [(other, list(oopts[:1]))]
+        only_added = rng.random() < 0.2
+        try:
+            res = get_mod_apply_selection_choice(g, set(start), choice, target, con_map, only_added=only_added)
+            exc = None
+        except Exception as e:  # noqa
+            res, exc = None, e
+
+        def red(edge):
+            return tuple(edge[:-1]) + (get_edge_type(edge),)
+        env = {'graph': g, 'start_nodes': set(start), 'choice_node': choice, 'target_option_node': target,
+               'choice_con_map': con_map, 'only_added': only_added, 'EdgeType': EdgeType}
+        if res is not None:
+            env['removed_edges'] = {red(e) for e in res[0]}
+            env['removed_nodes'] = set(res[1])
+            env['added_edges'] = {red(e) for e in res[2] if len(e) == 3}
+
+        def call(res=res, exc=exc):
+            if exc is not None:
+                raise exc
+            return res
+        allnodes = nodes + [choice, other]
+        uni = {'Ref': allnodes, 'Int': [0, 1, 2], EDGE: list(es),
+               EDGE3: [(u, v, t) for u in allnodes for v in allnodes for t in (EdgeType.DERIVES, EdgeType.INCOMPATIBILITY)]}
+        yield (env, call, uni,
+               f'get_mod_apply_selection_choice(edges={[(str(u), str(v), k, t.name) for u, v, k, t in es]}, start=[n0], choice=c, '
+               f'target={target!s}, choice_con_map={None if con_map is None else [(str(a), [str(x) for x in b]) for a, b in con_map]}, only_added={only_added})')
+
+
+DOMAIN = {F + 'get_mod_apply_selection_choice@until-incompatibility': _domain_apply_selection}
